@@ -21,10 +21,12 @@ RULE = (
     "Hypothesis-generated: form of internal_dir and of data_dir drawn independently from {absolute, relative to cwd, "
     "relative with '..', trailing slash, nested non-existing, through a symlinked parent, pre-existing}, cache_objects in "
     "{None, False, True, 0, -1, 2}, a PipeLang program and one edit. Fixed history per case: P1 evaluates and loads every "
-    "path, changes its working directory, loads and evaluates again; a fresh process P2 started in another directory opens "
+    "path, changes its working directory, loads and evaluates again, then configures the store a second time with the same arguments "
+    "(relative forms now designate fresh locations) and a fresh process reads those; a fresh process P2 started in another directory opens "
     "the same locations (absolute) and loads / re-evaluates; view B (same internal dir, other data dir) evaluates: nothing "
     "kept may run; the program is edited and evaluated in B; view A must still serve the old values until it evaluates the "
-    "new code, which must run nothing kept. Non-trivial = a non-absolute or symlinked directory form, or the two-view part "
+    "new code, which must run nothing kept; finally the internal directory is moved elsewhere and opened with the old data directory "
+    "(nothing kept may run, the dangling links must be re-pointed). Non-trivial = a non-absolute or symlinked directory form, or the two-view part "
     "reached with >=1 kept node; distinct by (forms, cache, program)."
 )
 ASSUMPTIONS = [
@@ -97,7 +99,7 @@ class P(object):
         self.prog = prog
 
     def set_store(self, internal, data, cache):
-        return self.w.call("set_store", kind="local", internal=internal, data=data, cache=cache)
+        return self.w.call("set_store", kind="local", internal=internal, data=data, cache=cache, raw=True)   # no observing wrapper: set_store sees its own store objects
 
     def eval(self, root):
         f = self.prog["funcs"][root]
@@ -173,6 +175,19 @@ def check_case(case, ev=None, scratch=None):
         p1.w.call("chdir", path=cwd1)
         check_loads(p1, "P1 after chdir", paths)
         check_eval(p1, "P1 after chdir", exp, True)
+        # P1 configures the store again with the SAME arguments from its new working directory: relative forms now
+        # designate other (fresh) locations, absolute ones the same
+        iarg2, iabs2 = location(base, "int", case["iform"], cwd1)
+        darg2, dabs2 = location(base, "dataA", case["dform"], cwd1)
+        p1.set_store(iarg2, darg2, case["cache"])
+        check_eval(p1, "P1 after chdir and a second set_store with the same arguments", exp, iabs2 == iabs)
+        check_loads(p1, "P1 after chdir and a second set_store with the same arguments", paths)
+        p1b = P(root_dir, cwd0, prog)
+        procs.append(p1b)
+        p1b.set_store(iabs2, dabs2, case["cache"])
+        check_loads(p1b, "fresh process on the locations of P1's second set_store", paths)
+        p1b.close()
+        p1.set_store(iabs, dabs, case["cache"])
         # P2: fresh process, other cwd, same absolute locations
         p2 = P(root_dir, cwd1, prog)
         procs.append(p2)
@@ -201,6 +216,21 @@ def check_case(case, ev=None, scratch=None):
         check_eval(p3, "view A evaluating the code already computed through view B", exp2, True)
         check_loads(p3, "view A after its own evaluation", newB)
         check_loads(p1, "P1 (still alive, old cwd changed) after everything", newB)
+        # the internal directory is moved elsewhere; the data directory (whose links now dangle) stays
+        import shutil
+
+        i2 = os.path.join(base, "moved", "int_moved")
+        os.makedirs(os.path.dirname(i2))
+        shutil.move(os.path.realpath(iabs), i2)
+        p4 = P(root_dir, cwd1, prog2)
+        procs.append(p4)
+        p4.set_store(i2, dabs, case["cache"])
+        check_eval(p4, "internal directory moved, old data directory", exp2, True)
+        check_loads(p4, "internal directory moved, old data directory", dict(it2.kept))
+        p5 = P(root_dir, cwd0, prog2)
+        procs.append(p5)
+        p5.set_store(i2, dabs, case["cache"])
+        check_loads(p5, "fresh process after the internal directory was moved", dict(it2.kept))
         if ev is not None:
             nt = case["iform"] != "abs" or case["dform"] != "abs" or bool(kept_names)
             ev.case({"iform": case["iform"], "dform": case["dform"], "cache": repr(case["cache"]), "edit": case["edit"],
